@@ -368,13 +368,15 @@ def family():
     dirs = ["buildpacks/target", "meta/x", "meta/deep/y"]
     edges = [(1, 0), (2, 0), (2, 1)]
     out = []
-    for mask in range(8):
-        for perm in itertools.permutations(["acme/a", "acme/b", "acme/c"]):
+    # second id set: an id with several slashes whose prefix is another buildpack's id (their output
+    # directory names must stay siblings: acme_tools and acme_tools_one)
+    for mask, ids in itertools.product(range(8), (["acme/a", "acme/b", "acme/c"], ["acme/tools", "acme/tools/one", "zeta"])):
+        for perm in itertools.permutations(ids):
             bps = []
             for k in range(3):
                 deps = [f"libcnb:{perm[j]}" for (i, j) in edges if i == k and mask & (1 << edges.index((i, j)))]
                 bps.append({"id": perm[k], "dir": dirs[k], "kind": "composite", "deps": deps + ["docker://docker.io/external/example:1.2.3"]})
-            out.append({"name": f"g{mask}-{''.join(x[-1] for x in perm)}", "ignore": "packaged/\n", "package_dir": None, "buildpacks": bps})
+            out.append({"name": f"g{mask}-{'.'.join(x.replace('/', '_') for x in perm)}", "ignore": "packaged/\n", "package_dir": None, "buildpacks": bps})
     return out
 
 
@@ -502,7 +504,7 @@ def run(ctx):
     res.cov("workspaces", [w["name"] for w in workspaces])
     res.cov("distinct_outcomes", sorted(outcomes))
     res.cov("determinism_replays", len(crash_ws))
-    res.cov("rule", "generated workspaces of trivial crates (libcnb.rs buildpacks with 1-3 binary targets incl. an ambiguous one, composites with libcnb:/relative/docker/urn dependencies forming a DAG, a non-libcnb buildpack directory, an ignore file for the output directory) packaged by the real cargo-libcnb from the root and from every buildpack directory, dev/release, default/custom/outside package dir, each also re-run over its own output; plus a composite-only family: every DAG on three composite buildpacks x every assignment of three ids (alphabetical id order vs dependency order in every combination; one buildpack in a directory named `target`), from the root and from every buildpack directory; then for the crash workspaces every mutating syscall of the packager under the package directory is a crash point (SIGKILL before the call) followed by a complete second run, plus 5 kinds of foreign pre-seeded content; distinct_nontrivial = crash points + seeds + workspaces")
+    res.cov("rule", "generated workspaces of trivial crates (libcnb.rs buildpacks with 1-3 binary targets incl. an ambiguous one, composites with libcnb:/relative/docker/urn dependencies forming a DAG, a non-libcnb buildpack directory, an ignore file for the output directory) packaged by the real cargo-libcnb from the root and from every buildpack directory, dev/release, default/custom/outside package dir, each also re-run over its own output; plus a composite-only family: every DAG on three composite buildpacks x every assignment of three ids (two id sets, one with a multi-slash id whose prefix is another id) (alphabetical id order vs dependency order in every combination; one buildpack in a directory named `target`), from the root and from every buildpack directory; then for the crash workspaces every mutating syscall of the packager under the package directory is a crash point (SIGKILL before the call) followed by a complete second run, plus 5 kinds of foreign pre-seeded content; distinct_nontrivial = crash points + seeds + workspaces")
     res.cov("bound", {"first_run_crashes": 1, "target": TRIPLE})
     res.cov("exhaustive", True)
     res.sample({"workspace": W1})
